@@ -19,6 +19,7 @@ fn main() {
     let cmd = args.get(1).map(|s| s.as_str()).unwrap_or("");
     match cmd {
         "seqx" => {
+            common::solo_install();
             let cfg = Cfg::parse(&args[2]);
             let journal = args.get(3).cloned();
             let cap: f64 = std::env::var("MMVERIF_JOB_WALL_S").ok().and_then(|s| s.parse().ok()).unwrap_or(3600.0);
@@ -58,21 +59,28 @@ fn main() {
             }
         }
         "selftest" => {
+            common::solo_install();
             let d: usize = args.get(2).and_then(|s| s.parse().ok()).unwrap_or(3);
             println!("{}", seqx::selftest(d));
         }
         "longrun" => {
             // longrun <spec> <pattern> <n>
+            common::solo_install();
             println!("{}", seqx::longrun(&args[2], &args[3], args[4].parse().unwrap()));
         }
         "overshoot" => {
+            common::solo_install();
             println!("{}", seqx::overshoot());
         }
         "cfgx" => {
+            common::solo_install();
             println!("{}", cfgx::run().to_json());
         }
         "replay" => {
             let w = &args[2];
+            if !w.starts_with("schedx|") {
+                common::solo_install();
+            }
             let v = if w.starts_with("seqx|") {
                 seqx::replay(w)
             } else if w.starts_with("sketchx|") {
